@@ -72,7 +72,7 @@ def run(tier):
                     rep, info = r.get('replay', (False, {}))
                     run.counterexample('ts-window:rows:%s' % name, '%s: %s' % (c['sql'], p), {'member': m, 'witness': c.get('witness'), 'native': info}, rep)
                 elif p.startswith('output_time_filter'):
-                    run.counterexample('ts-window:output-filter:%s' % m[0], '%s: %s' % (c['sql'], p), {'member': m, 'sql': c['sql']}, True)
+                    run.counterexample('ts-window:output-filter:%s' % m[0].replace('cast', ''), '%s: %s' % (c['sql'], p), {'member': m, 'sql': c['sql']}, True)
                 else:
                     run.counterexample('ts-window:structure:%s:%s' % (name, p[:40]), '%s: %s' % (c['sql'], p), {'member': m, 'sql': c['sql']}, True)
             run.ob(name, 'counterexample', problems[:2])
